@@ -1,3 +1,371 @@
 package main
 
-func dispatch6(mode string, args []string) bool { return false }
+import (
+	"bufio"
+	"encoding/hex"
+	"encoding/json"
+	"fmt"
+	"math/rand"
+	"os"
+
+	"verif/harness/vapp"
+)
+
+func dispatch6(mode string, args []string) bool {
+	switch mode {
+	case "auth":
+		authMode(args)
+	case "replay":
+		replayMode(args)
+	default:
+		return dispatch7(mode, args)
+	}
+	return true
+}
+
+// prefixProc starts a fresh replica and executes the reference blocks 1..upto (exclusive of
+// block index upto) with the reference's mempool checks.
+func prefixProc(sc *vapp.Scenario, ref *vapp.Transcript, upto int) (*vapp.Proc, string, error) {
+	dir, err := os.MkdirTemp("", "vcase")
+	if err != nil {
+		return nil, "", err
+	}
+	p, _, err := vapp.StartProc(vapp.ReplicaConfig{Dir: dir, Identity: "v1"}, sc.Genesis)
+	if err != nil {
+		os.RemoveAll(dir)
+		return nil, "", err
+	}
+	if r := p.Call(&vapp.Cmd{Op: "initchain"}); !r.Alive {
+		p.Stop()
+		os.RemoveAll(dir)
+		return nil, "", fmt.Errorf("dead at initchain")
+	}
+	for j := 0; j < upto; j++ {
+		b := ref.Concrete[j]
+		r := p.Call(&vapp.Cmd{Op: "run_block", Block: &b, PreChecks: ref.Checked[j]})
+		if !r.Alive || !r.OK {
+			p.Stop()
+			os.RemoveAll(dir)
+			return nil, "", fmt.Errorf("prefix block %d failed: %s", j+1, r.Err)
+		}
+		if r.Hash != ref.Blocks[j].Hash {
+			p.Stop()
+			os.RemoveAll(dir)
+			return nil, "", fmt.Errorf("prefix block %d: hash differs from the reference (C01 decides that)", j+1)
+		}
+	}
+	return p, dir, nil
+}
+
+type AuthEvent struct {
+	T          int    `json:"t"`
+	Kind       string `json:"kind"`
+	Mut        string `json:"mut"`
+	Pos        int    `json:"pos"`
+	H          int64  `json:"h"`
+	OrigCheck  uint32 `json:"origCheck"`
+	MutCheck   int64  `json:"mutCheck"`   // -1: the node died
+	MutDeliver int64  `json:"mutDeliver"` // -1: the node died
+	SameHash   bool   `json:"sameHash"`   // block with the mutant == block without it
+	Others     bool   `json:"others"`     // results of the other transactions unchanged
+	Tx         string `json:"tx"`
+}
+
+type pick struct {
+	bi, ri int // block index, record index
+}
+
+func pickTxs(ref *vapp.Transcript, rng *rand.Rand, k int) []pick {
+	byKind := map[string][]pick{}
+	for bi, b := range ref.Blocks {
+		for ri, t := range b.Txs {
+			if t.Included && t.Check != nil && t.Check.Code == 0 && t.B != nil && t.Deliver != nil && t.Deliver.Code == 0 && t.Path == "honest" {
+				byKind[t.Req.Kind] = append(byKind[t.Req.Kind], pick{bi, ri})
+			}
+		}
+	}
+	var out []pick
+	kinds := []string{}
+	for kd := range byKind {
+		kinds = append(kinds, kd)
+	}
+	sortStrings(kinds)
+	for len(out) < k && len(kinds) > 0 {
+		i := rng.Intn(len(kinds))
+		ps := byKind[kinds[i]]
+		out = append(out, ps[rng.Intn(len(ps))])
+		kinds = append(kinds[:i], kinds[i+1:]...)
+	}
+	return out
+}
+
+func sortStrings(s []string) {
+	for i := range s {
+		for j := i + 1; j < len(s); j++ {
+			if s[j] < s[i] {
+				s[i], s[j] = s[j], s[i]
+			}
+		}
+	}
+}
+
+// blockWith returns block bi of the reference with transaction idx replaced (repl != nil)
+// or removed (repl == nil).
+func blockWith(ref *vapp.Transcript, bi, idx int, repl []byte) *vapp.BlockSpec {
+	b := ref.Concrete[bi]
+	nb := b
+	nb.Txs = nil
+	for i, t := range b.Txs {
+		if i == idx {
+			if repl != nil {
+				nb.Txs = append(nb.Txs, repl)
+			}
+			continue
+		}
+		nb.Txs = append(nb.Txs, t)
+	}
+	return &nb
+}
+
+func sameOthers(base, with []vapp.TxResult, idx int, replaced bool) bool {
+	j := 0
+	for i := range with {
+		if replaced && i == idx {
+			continue
+		}
+		if j >= len(base) {
+			return false
+		}
+		a, b := base[j], with[i]
+		if a.Code != b.Code || a.Data != b.Data || a.GasUsed != b.GasUsed {
+			return false
+		}
+		j++
+	}
+	return j == len(base)
+}
+
+// authMode (C04): every mutation class of accepted transactions of every kind.
+func authMode(args []string) {
+	c, _ := flags("auth", args)
+	given := loadScenarios(c)
+	rep := newReport("auth")
+	type res struct {
+		evs []AuthEvent
+		err error
+		sc  *vapp.Scenario
+		tr  *vapp.Transcript
+	}
+	results := make([]res, c.n)
+	parallel(c.n, c.workers, func(i int) {
+		var sc *vapp.Scenario
+		if given != nil {
+			sc = given[i]
+		} else {
+			sc = makeScenario(c, i)
+		}
+		r := &results[i]
+		r.sc = sc
+		ref, err := vapp.Materialise(sc, vapp.RunOpts{Identity: "v1"})
+		if err != nil {
+			r.err = err
+			return
+		}
+		r.tr = ref
+		g := vapp.BuildGenesis(sc.Genesis)
+		rng := rand.New(rand.NewSource(c.seed*31 + int64(i)))
+		for _, pk := range pickTxs(ref, rng, c.maxTx) {
+			rec := ref.Blocks[pk.bi].Txs[pk.ri]
+			// the block without the transaction
+			p, dir, err := prefixProc(sc, ref, pk.bi)
+			if err != nil {
+				r.err = err
+				return
+			}
+			base := p.Call(&vapp.Cmd{Op: "run_block", Block: blockWith(ref, pk.bi, rec.Index, nil)})
+			p.Stop()
+			os.RemoveAll(dir)
+			if !base.Alive {
+				r.err = fmt.Errorf("node died on a block without the picked transaction")
+				return
+			}
+			other := g.Acct("n2")
+			nsig := len(rec.B.Msg.Signers())
+			for _, m := range vapp.Mutations {
+				for pos := 0; pos < nsig; pos++ {
+					if pos > 0 && (m == "payload" || m == "feePrice" || m == "feeGas" || m == "feeCurrency" || m == "memo" || m == "type" || m == "dropSigner" || m == "addSigner" || m == "swapSigners" || m == "unsigned") {
+						continue
+					}
+					mb := g.Mutate(rec.B, m, pos, other)
+					if mb == nil {
+						continue
+					}
+					p, dir, err := prefixProc(sc, ref, pk.bi)
+					if err != nil {
+						r.err = err
+						return
+					}
+					ev := AuthEvent{T: i + 1, Kind: rec.Req.Kind, Mut: m, Pos: pos + 1, H: int64(pk.bi + 1), OrigCheck: rec.Check.Code, Tx: hex.EncodeToString(mb)}
+					cr := p.Call(&vapp.Cmd{Op: "check", Tx: mb})
+					if !cr.Alive {
+						ev.MutCheck, ev.MutDeliver = -1, -1
+					} else {
+						ev.MutCheck = int64(cr.Tx.Code)
+						br := p.Call(&vapp.Cmd{Op: "run_block", Block: blockWith(ref, pk.bi, rec.Index, mb)})
+						if !br.Alive {
+							ev.MutDeliver = -1
+						} else {
+							ev.MutDeliver = int64(br.Txs[rec.Index].Code)
+							ev.SameHash = br.Hash == base.Hash
+							ev.Others = sameOthers(base.Txs, br.Txs, rec.Index, true)
+						}
+					}
+					p.Stop()
+					os.RemoveAll(dir)
+					r.evs = append(r.evs, ev)
+				}
+			}
+		}
+	})
+	f, _ := os.Create(c.out)
+	w := bufio.NewWriter(f)
+	enc := json.NewEncoder(w)
+	kinds := map[string]int{}
+	var scs []*vapp.Scenario
+	for _, r := range results {
+		if r.err != nil {
+			fmt.Fprintln(os.Stderr, "run error:", r.err)
+			os.Exit(2)
+		}
+		rep.count(r.tr)
+		scs = append(scs, r.sc)
+		for _, e := range r.evs {
+			_ = enc.Encode(e)
+			rep.Events++
+			kinds[e.Kind]++
+			if len(rep.Samples) < 3 && e.Mut == "payload" {
+				x := e
+				x.Tx = x.Tx[:40] + "..."
+				rep.Samples = append(rep.Samples, x)
+			}
+		}
+	}
+	w.Flush()
+	f.Close()
+	sf, _ := os.Create(c.out + ".scenarios.json")
+	_ = json.NewEncoder(sf).Encode(scs)
+	sf.Close()
+	rep.Extra["cases_per_kind"] = kinds
+	emit(rep)
+}
+
+type ReplayEvent struct {
+	T         int    `json:"t"`
+	Kind      string `json:"kind"`
+	Enc       string `json:"enc"`
+	H         int64  `json:"h"`
+	Later     int    `json:"later"`     // how many blocks after execution the resubmission happens
+	Check     int64  `json:"check"`     // CheckTx code of the resubmission, -1 node died
+	Deliver   int64  `json:"deliver"`   // DeliverTx code when delivered in a later block
+	SameHash  bool   `json:"sameHash"`  // later block with the resubmission == without it
+	SameBytes bool   `json:"sameBytes"` // the encoding is byte-identical to the executed transaction
+	Parses    bool   `json:"parses"`
+}
+
+// replayMode (C05): executed transactions are resubmitted in every encoding class.
+func replayMode(args []string) {
+	c, _ := flags("replay", args)
+	given := loadScenarios(c)
+	rep := newReport("replay")
+	type res struct {
+		evs []ReplayEvent
+		err error
+		sc  *vapp.Scenario
+		tr  *vapp.Transcript
+	}
+	results := make([]res, c.n)
+	parallel(c.n, c.workers, func(i int) {
+		var sc *vapp.Scenario
+		if given != nil {
+			sc = given[i]
+		} else {
+			sc = makeScenario(c, i)
+		}
+		r := &results[i]
+		r.sc = sc
+		ref, err := vapp.Materialise(sc, vapp.RunOpts{Identity: "v1"})
+		if err != nil {
+			r.err = err
+			return
+		}
+		r.tr = ref
+		rng := rand.New(rand.NewSource(c.seed*37 + int64(i)))
+		for _, pk := range pickTxs(ref, rng, c.maxTx) {
+			rec := ref.Blocks[pk.bi].Txs[pk.ri]
+			later := 1 + rng.Intn(3)
+			li := pk.bi + later // index of the later block
+			if li >= len(ref.Concrete) {
+				continue
+			}
+			for _, enc := range vapp.Encodings {
+				nb := vapp.Reencode(rec.B.Bytes, enc)
+				if nb == nil {
+					continue
+				}
+				ev := ReplayEvent{T: i + 1, Kind: rec.Req.Kind, Enc: enc, H: int64(pk.bi + 1), Later: later, SameBytes: string(nb) == string(rec.B.Bytes), Parses: true}
+				p, dir, err := prefixProc(sc, ref, li)
+				if err != nil {
+					r.err = err
+					return
+				}
+				cr := p.Call(&vapp.Cmd{Op: "check", Tx: nb})
+				if !cr.Alive {
+					ev.Check, ev.Deliver = -1, -1
+				} else {
+					ev.Check = int64(cr.Tx.Code)
+					lb := ref.Concrete[li]
+					with := lb
+					with.Txs = append([][]byte{nb}, lb.Txs...)
+					br := p.Call(&vapp.Cmd{Op: "run_block", Block: &with})
+					if !br.Alive {
+						ev.Deliver = -1
+					} else {
+						ev.Deliver = int64(br.Txs[0].Code)
+						ev.SameHash = br.Hash == ref.Blocks[li].Hash
+					}
+				}
+				p.Stop()
+				os.RemoveAll(dir)
+				r.evs = append(r.evs, ev)
+			}
+		}
+	})
+	f, _ := os.Create(c.out)
+	w := bufio.NewWriter(f)
+	enc := json.NewEncoder(w)
+	kinds := map[string]int{}
+	var scs []*vapp.Scenario
+	for _, r := range results {
+		if r.err != nil {
+			fmt.Fprintln(os.Stderr, "run error:", r.err)
+			os.Exit(2)
+		}
+		rep.count(r.tr)
+		scs = append(scs, r.sc)
+		for _, e := range r.evs {
+			_ = enc.Encode(e)
+			rep.Events++
+			kinds[e.Kind]++
+			if len(rep.Samples) < 3 {
+				rep.Samples = append(rep.Samples, e)
+			}
+		}
+	}
+	w.Flush()
+	f.Close()
+	sf, _ := os.Create(c.out + ".scenarios.json")
+	_ = json.NewEncoder(sf).Encode(scs)
+	sf.Close()
+	rep.Extra["cases_per_kind"] = kinds
+	emit(rep)
+}
